@@ -151,7 +151,7 @@ def run(tier, seed, replay=None):
     build = lib.Build().run()
     rep.proof = lib.compile_props(PID)
     rng = lib.rng_for(seed, PID)
-    ncases = 60 if tier == 'quick' else 1500
+    ncases = 60 if tier == 'quick' else 12000
     per = 25
     cases = []
     for c in range(ncases):
